@@ -6,6 +6,7 @@ mod c31;
 mod par;
 mod c32;
 mod alpha;
+mod c01;
 mod c03;
 mod c06;
 mod rt;
@@ -56,7 +57,9 @@ fn parse_args() -> Args {
 
 fn main() {
     // keep panics of the code under test quiet; they are caught and reported as data
-    std::panic::set_hook(Box::new(|_| {}));
+    if std::env::var("PV_LOUD").is_err() {
+        std::panic::set_hook(Box::new(|_| {}));
+    }
     let a = parse_args();
     match a.cmd.as_str() {
         "c31" => c31::run(&a),
@@ -64,6 +67,7 @@ fn main() {
         "c32" => c32::run(&a),
         "c06" => c06::run_ff(&a),
         "c05" => c06::run_dec(&a),
+        "c01" => c01::run(&a),
         "c03" => c03::run(&a),
         "c07" => c07::run(&a),
         "c08" => c08::run(&a),
